@@ -113,6 +113,19 @@ def spans_of_line(lex):
             out.add((lx["c1"], lx["c1"]))          # an empty tag value is the empty text right after the colon
         if lx["k"] == "commodity" and lx["t"].startswith('"'):
             out.add((lx["c0"] + 1, lx["c1"] - 1))
+        if lx["k"] == "format":
+            # a display format spells its commodity inside the format lexeme: the run of characters that is not number text
+            t = lx["t"]
+            idx = [i for i, ch in enumerate(t) if ch not in "0123456789., "]
+            if idx:
+                a, b = idx[0], idx[-1] + 1
+                if t[a] == '"':          # a quoted symbol may contain blanks and digits
+                    b = t.rfind('"') + 1
+                c0 = lx["c0"] + wcommon.u16len(t[:a])
+                c1 = lx["c0"] + wcommon.u16len(t[:b])
+                out.add((c0, c1))
+                if t[a] == '"':
+                    out.add((c0 + 1, c1 - 1))
     return out
 
 
